@@ -1088,10 +1088,53 @@ def replay_concurrent_report(model, rec):
                     )
             finally:
                 shutil.rmtree(d, ignore_errors=True)
+    # second leg: the periodic save is still in flight (held at its last file operation) when the report arrives AND
+    # when stop() runs - the final save of stop() must still write the current state
+    for ext in (".json", ".pickle"):
+        d = tempfile.mkdtemp(prefix="pyvc_race_")
+        try:
+            path = os.path.join(d, "state" + ext)
+            with mock.patch("threading.Timer"):
+                gw = mysensors.Gateway(protocol_version="2.0")
+                gw.tasks = mysensors.task.SyncTasks(gw.const, True, path, gw.sensors, mock.MagicMock())
+                for line in ("1;255;0;0;17;2.0\n", "1;0;0;0;6;\n", "1;0;1;0;0;20.0\n"):
+                    gw.logic(line)
+                gw.tasks.persistence.save_sensors()
+                gw.logic("1;0;1;0;0;21.0\n")
+                real = os.remove
+                fired = []
+
+                def remove_then_stop(*a, _gw=gw, _fired=fired, _real=real):
+                    if not _fired:
+                        _fired.append(1)
+                        for target, args in ((_gw.logic, ("1;0;1;0;0;22.5\n",)), (_gw.tasks.stop, ())):
+                            t = threading.Thread(target=target, args=args)
+                            t.start()
+                            t.join(20)
+                    return _real(*a)
+
+                with mock.patch.object(P.os, "remove", remove_then_stop):
+                    try:
+                        gw.tasks.persistence.save_sensors()
+                    except OSError:
+                        pass  # the overtaken periodic save may find its backup gone: it fails, the state stays dirty
+                held = gw.sensors[1].children[0].values[0]
+            gw2 = mysensors.Gateway(protocol_version="2.0")
+            with mock.patch("threading.Timer"):
+                gw2.tasks = mysensors.task.SyncTasks(gw2.const, True, path, gw2.sensors, mock.MagicMock())
+                gw2.tasks.persistence.safe_load_sensors()
+            got = gw2.sensors[1].children[0].values[0] if 1 in gw2.sensors else None
+            if got != held:
+                return True, (
+                    f"{ext}: a periodic save is held at its last file operation, '1;0;1;0;0;22.5' is handled, stop() runs and returns, then the "
+                    f"periodic save finishes; gateway held {held!r} at stop, the restarted gateway holds {got!r}"
+                )
+        finally:
+            shutil.rmtree(d, ignore_errors=True)
     return False, "a report racing with a periodic save is on disk after a clean stop"
 
 
-HOOKS.insert(0, (re.compile(r"concurrent-report"), replay_concurrent_report))
+HOOKS.insert(0, (re.compile(r"concurrent-report|^Persistence\.save_sensors.*frame\.|^save_sensors.*frame\."), replay_concurrent_report))
 
 
 def replay_stop_during_retry(model, rec):
